@@ -522,3 +522,59 @@ func MemPairs(seed uint64) *Case {
 		}
 	}
 }
+
+// StoreThenWalk is a C05 sub-profile: a few stores to distinct lines, then a
+// long read-only walk over other lines that displaces them from every cache
+// level before the run ends. No line is touched by both a store and another
+// access, so the final memory image alone carries the verdict.
+func StoreThenWalk(seed uint64) *Case {
+	for try := uint64(0); ; try++ {
+		r := rng.New(rng.Derive(seed, 0x570, try))
+		p := &Profile{Name: "store-then-walk", PoolMin: 3, PoolMax: 6, AddrRegsMax: 1, SubWord: r.Bool(), MemSizes: []int{8192, 16384}}
+		b := NewBuilder(r, p)
+		// store area: lines 0..15 (1 KB); walk area above
+		nst := r.Range(1, 4)
+		used := map[int]bool{}
+		for k := 0; k < nst; k++ {
+			line := r.Intn(16)
+			for used[line] {
+				line = (line + 1) % 16
+			}
+			used[line] = true
+			op := b.storeOp()
+			sz := op.AccessSize()
+			off := r.Intn(64/sz) * sz
+			b.Emit(isa.Inst{Op: isa.LI, Rd: scratchRegs[0], Imm: b.Val()})
+			b.Emit(isa.Inst{Op: op, Rs2: scratchRegs[0], Rs1: isa.Zero, Imm: int32(64*line + off)})
+			if r.Chance(1, 3) {
+				b.Alu()
+			}
+		}
+		stride := []int{64, 128, 128, 192}[r.Intn(4)]
+		iters := r.Range(20, 100)
+		base := 1024 + 64*r.Intn(4)
+		for iters > 1 && base+(iters-1)*stride+8 > b.ReadOnlyFrom {
+			iters--
+		}
+		w, c := walkRegs[0], loopRegs[0]
+		b.Emit(isa.Inst{Op: isa.LI, Rd: w, Imm: int32(base)})
+		b.Emit(isa.Inst{Op: isa.LI, Rd: c, Imm: int32(iters)})
+		top := b.NewLabel()
+		b.Place(top)
+		b.Emit(isa.Inst{Op: b.loadOp(), Rd: b.Dst(), Rs1: w, Imm: int32(4 * r.Intn(2))})
+		if r.Bool() {
+			b.Alu()
+		}
+		b.Emit(isa.Inst{Op: isa.ADDI, Rd: w, Rs1: w, Imm: int32(stride)})
+		b.Emit(isa.Inst{Op: isa.ADDI, Rd: c, Rs1: c, Imm: -1})
+		b.Emit(isa.Inst{Op: isa.BNEZ, Rs1: c, Label: top})
+		if r.Bool() {
+			b.Emit(isa.Inst{Op: isa.RET})
+		}
+		b.Prog.Labels["END"] = len(b.Prog.Insts)
+		b.Tag("store-then-walk")
+		if cs := Finish(b, 5000, false); cs != nil {
+			return cs
+		}
+	}
+}
